@@ -81,6 +81,20 @@ def gen(ctx, rng):
         llas = [float(v) for v in np.arange(0.0, float(rng.choice([1.5, 2.5, 3.5])), 1.0)]
         cases.append(dict(kind="wcvp" if it % 3 == 0 else "wcv", y=[float(v) for v in y], nodata=-3000.0, llas=llas, robust=True, n=n, miss=0,
                           degenerate=False, p=0.9 if it % 3 == 0 else None))
+    # flat series below zero with one upward spike and gaps: the zero-filled gap cells lie above the curve, so a reweighting that keeps
+    # weight only on them (and on the spike) leaves fewer than two weighted valid cells
+    for it in range(24 if ctx.thorough else 8):
+        n = int(rng.integers(6, 16))
+        level = float(rng.choice([-50, -200, -120, -800]))
+        y = np.full(n, level) + np.round(rng.normal(0, float(rng.choice([0.0, 1.0, 3.0])), n))
+        y[int(rng.integers(0, n))] = level + float(rng.choice([400, 1000, 250]))
+        yl = [float(v) for v in y]
+        for i in rng.choice(n, size=int(rng.integers(1, 3)), replace=False):
+            if y[i] < level + 100:
+                yl[int(i)] = -3000.0
+        if sum(1 for v in yl if v != -3000.0) >= 5:
+            cases.append(dict(kind="wcvp" if it % 3 == 0 else "wcv", y=yl, nodata=-3000.0, llas=[float(v) for v in np.arange(0.0, float(rng.choice([1.5, 2.5, 3.5])), 1.0)],
+                              robust=True, n=n, miss=sum(1 for v in yl if v == -3000.0), degenerate=False, p=0.9 if it % 3 == 0 else None))
     acc = []
     for k in range(8 if ctx.thorough else 4):
         T = int(rng.integers(10, 40))
